@@ -52,7 +52,13 @@ func checkC05(c *Ctx) {
 			if fn == nil {
 				continue
 			}
-			RequireFacts(c, p, "C05.guard", fn, AcceptNilErr, nil, []Req{{"inner-ok", `^noerr ` + s.inner + `\(p0,p1\)$`}})
+			// kept as a thin wrapper of a generalised function (PairWithOptions(P, Q, opts...)):
+			// the pipeline is that of the function that does the work
+			if tgt, pm := thinWrapperTarget(fn); tgt != nil && pm[0] == 0 && pm[1] == 1 {
+				fn = tgt
+			}
+			isInner := func(n string) bool { return n == s.inner || strings.HasPrefix(n, s.inner+"With") }
+			RequireFacts(c, p, "C05.guard", fn, AcceptNilErr, nil, []Req{{"inner-ok", `^noerr ` + s.inner + `(With\w+)?\(p0,p1[,)]`}})
 			c.Instance("C05.struct", 1)
 			// the value returned on acceptance is post(...) whose argument derives from inner(...)
 			ok := false
@@ -78,7 +84,7 @@ func checkC05(c *Ctx) {
 						return
 					}
 					seen[x] = true
-					if cc, _ := callResult(x); cc != nil && calleeOf(&cc.Call).Name == s.inner {
+					if cc, _ := callResult(x); cc != nil && isInner(calleeOf(&cc.Call).Name) {
 						infl = true
 					}
 					switch y := x.(type) {
